@@ -27,14 +27,18 @@ def run_props_on(repo, props):
     """{pid: (exit code, [finding keys])} -- runs the property checks in-process on the tree at repo"""
     out = {}
     ix = Index(repo)
+    known = {}
+    for k in core.load_known().get('findings', []):
+        known.setdefault(k.get('property'), set()).add(k.get('key'))
     for pid in props:
         mod = importlib.import_module('sa.props.%s' % pid.lower())
         rep = core.Report(pid, 'quick')
         try:
             mod.check(ix, rep)
             low = [(n, o, fl) for (n, o, fl) in rep.floors if o < fl]
-            code = 1 if rep.findings else (2 if (low or rep.errors) else 0)
-            out[pid] = (code, [f.key for f in rep.findings], [f.text() for f in rep.findings[:3]] or ['ANALYSIS-ERROR ' + m for m in rep.errors[:2]])
+            viol = [f for f in rep.findings if f.key not in known.get(pid, ())]     # recorded findings are not alarms
+            code = 1 if viol else (2 if (low or rep.errors) else 0)
+            out[pid] = (code, [f.key for f in viol], [f.text() for f in viol[:3]] or ['ANALYSIS-ERROR ' + m for m in rep.errors[:2]])
         except AnalysisError as e:
             out[pid] = (2, [], ['ANALYSIS-ERROR %s' % e])
         except Exception as e:
